@@ -4,7 +4,7 @@
    by comparing it with these (byte equality / two-way interop).  The theorems
    here are the structural facts about the constructions themselves. *)
 From Rpgp Require Import Base.Octets Base.Res Sym.Cfb Sym.CfbProofs Aead.Seipd2 Aead.Seipd2Proofs Kdf.Kdf Kdf.KdfProofs.
-From Rpgp Require Import Io.Emitter Sym.Seipd1EncMachine Sym.Seipd1EncMachineProofs.
+From Rpgp Require Import Io.Emitter Sym.Seipd1EncMachine Sym.Seipd1EncMachineProofs Aead.Seipd2EncMachine Aead.Seipd2EncMachineProofs.
 
 (* coded S2K count: shift form of the code = arithmetic form, all 256 values *)
 Theorem C12_count_decode :
@@ -93,3 +93,20 @@ Example C12_ex_v1_enc_machine :
   enc_run (fun x => repeat x5a 8) 8 (fun x => repeat x11 20) (fun i => 1 + i mod 4) (repeat x07 10) [x61; x62; x63] =
   (seipd1_enc (fun x => repeat x5a 8) 8 (fun x => repeat x11 20) (repeat x07 10) [x61; x62; x63], EClean).
 Proof. vm_compute. reflexivity. Qed.
+
+(* the SEIPD v2 stream encryptor likewise: one chunk sealed per refill under the running index, the final
+   tag with the octet count; read() with any request sizes delivers seipd2_enc *)
+Theorem C12_v2_stream_encryptor_machine_is_spec :
+  forall seal c key iv info, 1 <= c ->
+    forall (req : N -> N) p,
+      a2_run seal c key iv info req p = (seipd2_enc seal c key iv info p, EClean).
+Proof. exact a2_machine_is_spec. Qed.
+Print Assumptions C12_v2_stream_encryptor_machine_is_spec.
+
+(* (the code's read() does not loop over empty refills; there are none) *)
+Theorem C12_v2_encryptor_no_empty_refill :
+  forall seal c key iv info, 1 <= c ->
+    (forall k n a p, lenN (seal k n a p) = lenN p + TAGLEN) ->
+    forall st b st', a2_advance seal c key iv info st = Some (b, st') -> b <> [].
+Proof. exact stage_never_empty. Qed.
+Print Assumptions C12_v2_encryptor_no_empty_refill.
